@@ -187,6 +187,17 @@ theorem combWeights_all (w : List K) : ∀ x ∈ combWeights w, x = total w / (w
 
 /-! ### number of copies = number of teeth in `(a, b]` -/
 
+theorem psum_scale (w : List K) (c : K) (hc : 0 < c) (j : Nat) :
+    psum (w.map (c * ·)) j = c * psum w j := by
+  unfold psum
+  rw [← List.map_take, List.map_map]
+  induction (w.take j) with
+  | nil => simp
+  | cons a l ih =>
+    simp only [List.map_cons, List.sum_cons, Function.comp, ih, abs_mul, abs_of_pos hc]
+    ring
+
+
 variable [FloorRing K]
 
 theorem copies_eq (w : List K) (ζ : K) (k : Nat) (hW : 0 < total w) (hζ0 : 0 < ζ) (hζ1 : ζ < 1)
